@@ -146,14 +146,15 @@ class C16Mixin:
         if not h['in_handler']:
             return fn()
         h['in_handler'] = False          # only the outermost call is the handler's
+        pos = len(self._sc_trace)        # same record as scripted.observed_ctl makes for a direct call
         try:
             r = fn()
         except Exception as e:
             h['calls'].append(c)
-            self._sc_trace.append(['ctl', c, ['raised', coqio.canon_exception(e)]])
+            self._sc_trace.append(['ctl', c, ['raised', coqio.canon_exception(e)], pos])
             raise
         h['calls'].append(c)
-        self._sc_trace.append(['ctl', c, scripted.canon_ctl_ret(r, self._sc_actions)])
+        self._sc_trace.append(['ctl', c, scripted.canon_ctl_ret(r, self._sc_actions), pos])
         return r
 
     def pause(self, msg_text=None):
@@ -364,6 +365,11 @@ def direct_reply(ret, actions):
     if ret[0] == 'raised':
         return ['err', 'RuntimeError']
     return ['other', repr(ret)]
+
+
+def norm_trace(trace):
+    """the record of a control call: call and outcome (bookkeeping fields added by the shared harness are dropped)"""
+    return [e[:3] if e[0] == 'ctl' else e for e in trace]
 
 
 def run_twin(case):
@@ -587,8 +593,8 @@ def run_twin(case):
         return {
             'constructor_raised': None,
             'xevents': xevents,
-            'R': {'trace': R.trace, 'final': R.observe('final'), 'subscribed': R.subscribed(), 'sub_log': R.base.sub_log},
-            'D': {'trace': D.trace, 'final': D.observe('final'), 'subscribed': D.subscribed(), 'sub_log': D.base.sub_log,
+            'R': {'trace': norm_trace(R.trace), 'final': R.observe('final'), 'subscribed': R.subscribed(), 'sub_log': R.base.sub_log},
+            'D': {'trace': norm_trace(D.trace), 'final': D.observe('final'), 'subscribed': D.subscribed(), 'sub_log': D.base.sub_log,
                   'attempted': D.base.attempted},
             'attempted': R.base.attempted, 'delivered': [r for r in R.recorded if r[1] == PID],
             'quiescent': not R.sc.ready() and not D.sc.ready(),
